@@ -92,6 +92,8 @@ Ltac closed_fs_tests :=
   repeat match goal with
   | |- context [Z.land (Z.lor 196 ?x) ?k =? 0] =>
       let v := eval vm_compute in (Z.land (Z.lor 196 x) k =? 0) in change (Z.land (Z.lor 196 x) k =? 0) with v
+  | |- context [Z.land (Z.lor 9223372036854776004 ?x) ?k =? 0] =>
+      let v := eval vm_compute in (Z.land (Z.lor 9223372036854776004 x) k =? 0) in change (Z.land (Z.lor 9223372036854776004 x) k =? 0) with v
   end.
 Ltac small_count := unfold b2z; repeat match goal with |- context [if ?b then 1 else 0] => destruct b end; lia.
 
@@ -176,3 +178,38 @@ Proof. intros H. unfold arith_fs. rewrite set_flags_u16_eval. rewrite emu_flags_
 Theorem set_flags_u8_arith c cfb ofb r s : 0 <= rflags s < 2 ^ 64 ->
   set_flags_u8 c (arith_fs cfb ofb) 2049 r s = (Ok tt, with_flags s ARITH (b2f cfb CF + b2f ofb OF + szp 8 r)).
 Proof. intros H. unfold arith_fs. rewrite set_flags_u8_eval. rewrite emu_flags_spec by exact H. reflexivity. Qed.
+
+(* ---- the compare-only variant: flags_to_set additionally carries the emulator's NO_WRITEBACK
+   marker (bit 63).  The marker is cleared from RFLAGS like a flag would be, so the statement
+   needs the (architectural) fact that bit 63 of RFLAGS is reserved-zero. *)
+Definition cmp_fs (cfb ofb : bool) : Z := Z.lor 9223372036854776004 (Z.lor (b2f ofb FLAG_OF) (b2f cfb FLAG_CF)).
+
+Lemma set_flags_u64_eval_nw c (cfb ofb : bool) r s :
+  let fs := Z.lor 9223372036854776004 (Z.lor (b2f ofb FLAG_OF) (b2f cfb FLAG_CF)) in
+  set_flags_u64 c fs 2049 r s
+  = (Ok tt, set_rflags s (emu_flags (rflags s) fs 2049 (parity8 r) (Z.testbit r 63) (r =? 0))).
+Proof. set_flags_eval set_flags_u64 U64 63. Qed.
+
+Lemma land_trunc63 rf x : 0 <= rf < 2 ^ 63 -> Z.land rf x = Z.land rf (Z.land (Z.ones 63) x).
+Proof.
+  intros H. rewrite Z.land_assoc. f_equal. rewrite Z.land_ones by lia. symmetry. apply Z.mod_small. exact H.
+Qed.
+
+Lemma emu_flags_spec_nw rf (cfb ofb p sg z : bool) :
+  0 <= rf < 2 ^ 63 ->
+  emu_flags rf (Z.lor 9223372036854776004 (Z.lor (b2f ofb FLAG_OF) (b2f cfb FLAG_CF))) 2049 p sg z
+  = set_status rf ARITH (b2f cfb CF + b2f ofb OF + (b2f sg SF + b2f z ZF + b2f p PF)).
+Proof.
+  intros H. unfold set_status. rewrite (land_trunc63 rf (Z.lnot ARITH) H).
+  destruct cfb, ofb, p, sg, z; cbn [b2f]; unfold emu_flags; closed_fs_tests; cbn [negb]; cbv iota zeta.
+  all: repeat rewrite <- Z.lor_assoc; rewrite <- Z.land_assoc.
+  all: rewrite (land_trunc63 rf (Z.land _ _) H).
+  all: try solve [apply (f_equal2 Z.lor); [apply (f_equal (Z.land rf)); vm_compute; reflexivity | vm_compute; reflexivity]].
+  change (Z.land (0 + 0 + (0 + 0 + 0)) ARITH) with 0.
+  rewrite (Z.lor_0_r (Z.land rf (Z.land (Z.ones 63) (Z.lnot ARITH)))).
+  apply (f_equal (Z.land rf)). vm_compute. reflexivity.
+Qed.
+
+Theorem set_flags_u64_cmp c cfb ofb r s : 0 <= rflags s < 2 ^ 63 ->
+  set_flags_u64 c (cmp_fs cfb ofb) 2049 r s = (Ok tt, with_flags s ARITH (b2f cfb CF + b2f ofb OF + szp 64 r)).
+Proof. intros H. unfold cmp_fs. rewrite set_flags_u64_eval_nw. rewrite emu_flags_spec_nw by exact H. reflexivity. Qed.
